@@ -251,6 +251,10 @@ func runRotate(c *ctx) error {
 			func() error { r.report(4, r.Now()-3, 49); return nil },
 			func() error { return r.restart(r.Now() + 4000) },
 			func() error { r.fill(6); return nil },
+			// the clock is behind the persisted window offset at start-up (set back by the operator, dead RTC battery)
+			func() error { return r.restart(100) },
+			func() error { r.report(1, 98, 51); return nil },
+			func() error { return r.restart(3201 + 2016 + 2016 + 900 + 4000 + 50) },
 		}
 		for _, op := range ops {
 			if err := op(); err != nil {
